@@ -13,12 +13,32 @@ from .ref.numbering import Geo, well_id
 rt = bind_repo()
 from robotools.evotools.types import Tip  # noqa: E402
 
+class NotebookWorklist(rt.EvoWorklist):
+    """a user subclass with a compact display for notebooks"""
+
+    def __repr__(self):
+        return f"<NotebookWorklist: {len(self)} records>"
+
+    __str__ = __repr__
+
+
+class FsPath:
+    """a path-like object that is neither str nor pathlib.Path (os.PathLike protocol)"""
+
+    def __init__(self, p):
+        self.p = p
+
+    def __fspath__(self):
+        return self.p
+
+
 WLCLS = {
+    "NotebookWorklist": NotebookWorklist,
     "EvoWorklist": rt.EvoWorklist,
     "FluentWorklist": rt.FluentWorklist,
     "BaseWorklist": rt.BaseWorklist,
 }
-DEVICE = {"EvoWorklist": "evo", "FluentWorklist": "fluent", "BaseWorklist": "base"}
+DEVICE = {"NotebookWorklist": "evo", "EvoWorklist": "evo", "FluentWorklist": "fluent", "BaseWorklist": "base"}
 
 
 # ------------------------------------------------------------------ specs
@@ -91,7 +111,33 @@ def initial_contents(spec, by="origin"):
     return out
 
 
+class NoCompositionLabware(rt.Labware):
+    """a user subclass that opts out of composition tracking through the public hook"""
+
+    def get_well_composition(self, well):
+        return None
+
+
+class CountingLabware(rt.Labware):
+    """a user subclass that counts log entries; its counter exists only after the base constructor has run"""
+
+    def __init__(self, *args, **kwargs):
+        super().__init__(*args, **kwargs)
+        self.n_logged = 0
+
+    def log(self, label):
+        self.n_logged += 1
+        super().log(label)
+
+
+SUBCLASSES = {"nocomp": NoCompositionLabware, "counting": CountingLabware}
+
+
 def build_labware(spec, shared=None):
+    if spec.get("subclass"):
+        # a plate built through a user subclass of Labware
+        cls = SUBCLASSES[spec["subclass"]]
+        return cls(spec["name"], spec["rows"], spec["cols"], min_volume=spec["min"], max_volume=spec["max"], initial_volumes=spec["init"], component_names=spec.get("names"))
     if spec.get("label"):
         # the name robotools sees differs from the key the harness uses (two labware objects of one name)
         lw = build_labware({k: v for k, v in spec.items() if k != "label"}, shared)
@@ -145,6 +191,7 @@ def build_worklist(ws):
 def make_world(config):
     shared = {}
     return {
+        "clone_before_each_event": config.get("clone"),
         "lw": {s["name"]: build_labware(s, shared) for s in config["labware"]},
         "wl": {k: build_worklist(ws) for k, ws in config.get("worklists", {}).items()},
         "shared": shared,
@@ -177,6 +224,10 @@ def dec(x, W=None):
             return np.float64(x["$npf"])
         if "$npi" in x:
             return np.int64(x["$npi"])
+        if "$ma" in x:
+            # a masked array (numpy.ma): the library converts its arguments with numpy.array, which keeps the data and
+            # drops the mask
+            return np.ma.MaskedArray(np.array(x["$ma"][0], dtype=float), mask=x["$ma"][1])
         if "$nps" in x:
             return np.dtype(x["$nps"][0]).type(x["$nps"][1])  # numpy scalar of the named dtype (uint8, int8, uint16, ...)
         if "$npa" in x:
@@ -226,6 +277,8 @@ def ref_vols(x):
             return float(x["$npf"])
         if "$npi" in x:
             return int(x["$npi"])
+        if "$ma" in x:
+            return list(x["$ma"][0])
         if "$nps" in x:
             return x["$nps"][1]
         if "$npa" in x:
@@ -265,9 +318,26 @@ def pooled(x, W):
     return pool[key]
 
 
+def clone_world(W, how):
+    """Replace every labware and worklist of the world by a copy of itself (copy.deepcopy / copy.copy / a pickle round
+    trip): a user may branch a plate or a worklist at any time and go on working with the copy."""
+    import copy
+    import pickle
+
+    f = {"deepcopy": copy.deepcopy, "copy": copy.copy, "pickle": lambda o: pickle.loads(pickle.dumps(o))}[how]
+    memo_pairs = {}
+    for grp in ("lw", "wl"):
+        for k, o in list(W[grp].items()):
+            if id(o) not in memo_pairs:
+                memo_pairs[id(o)] = f(o)
+            W[grp][k] = memo_pairs[id(o)]
+
+
 def exec_event(W, ev):
     """Apply one event to the real objects.  Returns (outcome, exception or None)."""
     op = ev[0]
+    if W.get("clone_before_each_event"):
+        clone_world(W, W["clone_before_each_event"])
     try:
         if op == "add":
             _, lw, wells, vols, kw = ev
